@@ -356,3 +356,94 @@ mod tests {
         assert_eq!(mon.delivered(), 5);
     }
 }
+
+
+// ------------------------------------------------------------------ huge streams without storage
+
+/// `head` followed by `tail_len` pattern bytes computed from their offset (8-byte words of a multiplicative hash), so
+/// that gigabytes can be streamed and VERIFIED without ever being stored. Implements Read and AsyncRead (always ready).
+pub struct PatternSource {
+    head: Arc<Vec<u8>>,
+    tail_len: u64,
+    pos: u64,
+    /// largest number of bytes handed out per call
+    pub max_chunk: usize,
+}
+
+#[inline]
+fn pattern_word(j: u64) -> [u8; 8] {
+    (j.wrapping_add(1)).wrapping_mul(0x9E37_79B9_7F4A_7C15).to_le_bytes()
+}
+
+/// fill `buf` with the pattern bytes of tail offsets off .. off + buf.len()
+pub fn pattern_fill(off: u64, buf: &mut [u8]) {
+    let mut i = 0usize;
+    let mut o = off;
+    while i < buf.len() {
+        let w = pattern_word(o / 8);
+        let k = (o % 8) as usize;
+        let n = (8 - k).min(buf.len() - i);
+        buf[i..i + n].copy_from_slice(&w[k..k + n]);
+        i += n;
+        o += n as u64;
+    }
+}
+
+impl PatternSource {
+    pub fn new(head: Arc<Vec<u8>>, tail_len: u64) -> PatternSource {
+        PatternSource { head, tail_len, pos: 0, max_chunk: 1 << 20 }
+    }
+    fn fill(&mut self, buf: &mut [u8]) -> usize {
+        let total = self.head.len() as u64 + self.tail_len;
+        let n = (buf.len() as u64).min(total - self.pos).min(self.max_chunk as u64) as usize;
+        let mut done = 0;
+        if (self.pos as usize) < self.head.len() && self.pos < self.head.len() as u64 {
+            let h = &self.head[self.pos as usize..];
+            let k = h.len().min(n);
+            buf[..k].copy_from_slice(&h[..k]);
+            done = k;
+        }
+        if done < n {
+            let off = self.pos + done as u64 - self.head.len() as u64;
+            pattern_fill(off, &mut buf[done..n]);
+        }
+        self.pos += n as u64;
+        n
+    }
+}
+
+impl Read for PatternSource {
+    fn read(&mut self, buf: &mut [u8]) -> io::Result<usize> {
+        Ok(self.fill(buf))
+    }
+}
+
+impl AsyncRead for PatternSource {
+    fn poll_read(mut self: Pin<&mut Self>, _cx: &mut Context<'_>, buf: &mut [u8]) -> Poll<io::Result<usize>> {
+        Poll::Ready(Ok(self.fill(buf)))
+    }
+}
+
+/// incremental verifier for the tail of a PatternSource
+pub struct PatternCheck {
+    pub received: u64,
+    pub first_mismatch: Option<u64>,
+    scratch: Vec<u8>,
+}
+
+impl PatternCheck {
+    pub fn new() -> PatternCheck {
+        PatternCheck { received: 0, first_mismatch: None, scratch: vec![] }
+    }
+    pub fn feed(&mut self, chunk: &[u8]) {
+        if self.first_mismatch.is_none() {
+            self.scratch.resize(chunk.len(), 0);
+            pattern_fill(self.received, &mut self.scratch);
+            if self.scratch != chunk {
+                let i = self.scratch.iter().zip(chunk).position(|(a, b)| a != b).unwrap_or(0);
+                self.first_mismatch = Some(self.received + i as u64);
+            }
+        }
+        self.received += chunk.len() as u64;
+    }
+}
